@@ -2,7 +2,7 @@
   Driver for the private-key container model.  Answers of the third-party calls are recorded from the
   real run and passed in (`unused` = the real code never made the call).  Requests:
     unpad <hex>                                            → ok <hex> | exc SSHException
-    ossh <rsa|ec> <pw|none> <container> <kdf> <dec> <key>  → ok | exc <Class>
+    ossh <rsa|ec> <pw|none> <container> <kdf> <dec> <key>  → ok | exc <Class>      (legacy.ossh / legacy.ed: before the last two fixes)
          kdf = unused | ValueError | <hex>     dec = unused | ValueError | <hex>     key = unused | ok | fail
     ed <pw|none> <container> <kdf> <dec> <seeds>           → ok <seed> <verifykey> | exc <Class>
          seeds = - | <seed>:<vk or ValueError>,…
@@ -71,15 +71,17 @@ def step (line : String) : String :=
       | .ok r => "ok " ++ toHexTok r
       | .error c => "exc " ++ c.name
     | none => "bad-op"
-  | ["ossh", k, pw, data, kdf, dec, key] =>
+  | [op, k, pw, data, kdf, dec, key] =>
     match kind? k, pw? pw, ofHex? data, ansBytes? kdf, ansBytes? dec with
     | some k, some pw, some d, some kdf, some dec =>
-      showUnit (loadOpenssh (mkPrims kdf dec (keyAns key) [] (.error (.other "x"))) k d pw)
+      if op != "ossh" && op != "legacy.ossh" then "bad-op" else
+      showUnit (loadOpenssh (op == "legacy.ossh") (mkPrims kdf dec (keyAns key) [] (.error (.other "x"))) k d pw)
     | _, _, _, _, _ => "bad-op"
-  | ["ed", pw, data, kdf, dec, seeds] =>
+  | [op, pw, data, kdf, dec, seeds] =>
     match pw? pw, ofHex? data, ansBytes? kdf, ansBytes? dec, seedTable seeds with
     | some pw, some d, some kdf, some dec, some st =>
-      match loadEd (mkPrims kdf dec (.ok ()) st (.error (.other "x"))) d pw with
+      if op != "ed" && op != "legacy.ed" then "bad-op" else
+      match loadEd (op == "legacy.ed") (mkPrims kdf dec (.ok ()) st (.error (.other "x"))) d pw with
       | .ok (seed, vk) => "ok " ++ toHexTok seed ++ " " ++ toHexTok vk
       | .error c => "exc " ++ c.name
     | _, _, _, _, _ => "bad-op"
